@@ -223,7 +223,8 @@ CaseResult run_md(const RunCtx &ctx, TapeReader &t, unsigned size_hint) {
     if (c13 || mem) {
         size_t nb = 2 + t.below(10);
         for (size_t b = 0; b < nb; ++b) {
-            unsigned bk = (unsigned) t.below(8);
+            unsigned bk = (unsigned) t.below(10);
+            if (bk >= 8 && boxes.empty()) bk = 7;
             Pt4 lo{0, 0, 0, 0}, hi{0, 0, 0, 0};
             const Pt4 &a = sorted[qpr.below(sorted.size())].second, &c = sorted[qpr.below(sorted.size())].second;
             switch (bk) {
@@ -265,6 +266,21 @@ CaseResult run_md(const RunCtx &ctx, TapeReader &t, unsigned size_hint) {
                     for (size_t d = 0; d < D; ++d) lo[d] = std::min(a[d], last[d]), hi[d] = qpr.below(2) ? last[d] : cmax;
                     break;
                 }
+                case 8:   // consecutive calls that share a corner: same lower corner as the previous box, every upper coordinate kept, shortened
+                case 9: { // or lengthened independently (so neither box contains the other); 9: the same with the upper corner shared
+                    const Pt4 &plo = boxes.back().first, &phi = boxes.back().second;
+                    for (size_t d = 0; d < D; ++d) {
+                        unsigned how = (unsigned) qpr.below(3);
+                        if (bk == 8) {
+                            lo[d] = plo[d];
+                            hi[d] = how == 0 ? phi[d] : how == 1 ? plo[d] + qpr.below(phi[d] - plo[d] + 1) : std::min<uint64_t>(cmax, phi[d] + 1 + qpr.below(phi[d] - plo[d] + 2));
+                        } else {
+                            hi[d] = phi[d];
+                            lo[d] = how == 0 ? plo[d] : how == 1 ? plo[d] + qpr.below(phi[d] - plo[d] + 1) : plo[d] - std::min<uint64_t>(plo[d], 1 + qpr.below(phi[d] - plo[d] + 2));
+                        }
+                    }
+                    break;
+                }
                 default: { // random box around a stored point
                     for (size_t d = 0; d < D; ++d) {
                         unsigned bb = (unsigned) qpr.below(coord_bits + 1);
@@ -276,7 +292,7 @@ CaseResult run_md(const RunCtx &ctx, TapeReader &t, unsigned size_hint) {
                 }
             }
             boxes.emplace_back(lo, hi);
-            static const char *names[] = {"corners", "cell", "full", "slab1", "slabk", "random_small", "to_last", "around"};
+            static const char *names[] = {"corners", "cell", "full", "slab1", "slabk", "random_small", "to_last", "around", "same_min_as_previous", "same_max_as_previous"};
             box_kinds.push_back(names[bk]);
         }
         if (const std::string *xb = ctx.x("xboxes")) {
